@@ -144,6 +144,7 @@ V1_TEMPLATE = '''ACME-TRAP-MIB DEFINITIONS ::= BEGIN
 IMPORTS enterprises FROM RFC1155-SMI TRAP-TYPE FROM RFC-1215 OBJECT-TYPE FROM RFC-1212;
 acme OBJECT IDENTIFIER ::= { enterprises 99 }
 acmeVar OBJECT-TYPE SYNTAX INTEGER { up(1), down(2), testing(3) } ACCESS read-only STATUS mandatory DESCRIPTION "x" ::= { acme 1 }
+acmeNet OBJECT-TYPE SYNTAX NetworkAddress ACCESS read-only STATUS mandatory DESCRIPTION "x" ::= { acme 2 }
 %s
 END
 '''
@@ -263,6 +264,8 @@ class Parsers(object):
         self.metas = []
         self.loaded = set()
         self.cache = {}
+        self.other = {}
+        self.alone = {}
         self.budget = 2500 if ctx.tier == 'quick' else 40000
 
     def get(self, opts):
@@ -272,7 +275,27 @@ class Parsers(object):
         key = (ex['key'], text)
         if key in self.cache:
             return self.cache[key]
+        # parser objects of different dialects are used alternately: a parse must not depend on which parser (and lexer) ran last
+        other = self.other.get(ex['lexer_variant'])
+        if other is None:
+            other = self.other[ex['lexer_variant']] = try_build({} if ex['lexer_variant'] == 'v1' else {'supportSmiV1Keywords': True})
+        interleaved = other is not None and other is not ex and uses_reserved(text)
+        if interleaved:
+            pc.impl_parse(other, 'X DEFINITIONS ::= BEGIN END')
         r = pc.impl_parse(ex, text)
+        if interleaved:
+            from pysmi.parser.smi import parserFactory
+            if ex['key'] not in self.alone:
+                # a second parser object of the same dialect that is only ever used with its own kind
+                self.alone[ex['key']] = parserFactory(**{o: True for o in ex['key'].split(',') if o != 'smiV2'})()
+            pc.impl_parse(ex, 'X DEFINITIONS ::= BEGIN END', parser=self.alone[ex['key']])
+            alone = pc.impl_parse(ex, text, parser=self.alone[ex['key']])
+            self.ctx.res.count('interleaved-parses')
+            if alone != r:
+                self.ctx.res.oracle_failures.append({
+                    'key': 'interleaving', 'what': 'a parser of dialect [%s] used right after a parser of the other lexer variant gives %s, a fresh one %s' % (
+                        ex['key'], {k: v for k, v in r.items() if k != 'ast'} or 'a tree', {k: v for k, v in alone.items() if k != 'ast'} or 'another tree'),
+                    'input': {'options': [o for o in ex['key'].split(',') if o != 'smiV2'], 'text': text, 'interleave': True}})
         self.cache[key] = r
         if model and self.budget > 0:
             self.budget -= 1
@@ -467,6 +490,13 @@ def replay(payload):
     ex = try_build({o: True for o in inp['options']})
     if ex is None:
         return {'fails': True, 'impl': 'parser cannot be built'}
+    if inp.get('interleave'):
+        from pysmi.parser.smi import parserFactory
+        other = try_build({} if ex['lexer_variant'] == 'v1' else {'supportSmiV1Keywords': True})
+        pc.impl_parse(other, 'X DEFINITIONS ::= BEGIN END')
+        r = pc.impl_parse(ex, inp['text'])
+        alone = pc.impl_parse(ex, inp['text'], parser=parserFactory(**{o: True for o in inp['options']})())
+        return {'fails': r != alone}
     r0 = pc.impl_parse(ex, inp['text'])
     if key == 'superset-differs':
         sx = try_build({o: True for o in inp['superset']})
